@@ -261,6 +261,36 @@ def check_one(ctx: Ctx, case, permute=True):
 SEV_NAME = {"DepSkip": 0, "Skip": 1, "Ok": 2, "Retry": 3, "PermFail": 4}
 
 
+def falsy_workflows():
+    """Workflows whose steps succeed with FALSY values (None: ValueFunction without return; {}: sub-Workflow
+    without state; []: forEach over nothing), alone and next to a skipped / a plain step: an Ok outcome
+    counts as Ok whatever its value."""
+    vf_none = {"kind": "ValueFunction", "spec": {"preconditions": [{"assert": "=true", "skip": {"message": "never"}}]}}
+    vf_empty = {"kind": "ValueFunction", "spec": {"return": {}}}
+    vf_map = {"kind": "ValueFunction", "spec": {"return": {"n": 1}}}
+    vf_skip = {"kind": "ValueFunction", "spec": {"preconditions": [{"assert": "=false", "skip": {"message": "not wanted"}}],
+                                                 "return": {"n": 2}}}
+    vf_dep = {"kind": "ValueFunction", "spec": {"preconditions": [{"assert": "=false", "depSkip": {"message": "not yet"}}]}}
+    shapes = {
+        "none": [("none", {})], "empty": [("empty", {})], "fe0": [("map", {"forEach": {"itemIn": "=[]", "inputKey": "item"}})],
+        "sub": [("SUB", {})],
+        "none+skip": [("none", {}), ("skip", {})], "skip+none": [("skip", {}), ("none", {})],
+        "fe0+dep": [("map", {"forEach": {"itemIn": "=[]", "inputKey": "item"}}), ("dep", {})],
+        "map+none": [("map", {}), ("none", {})], "sub+skip": [("SUB", {}), ("skip", {})],
+        "none+empty+fe0": [("none", {}), ("empty", {}), ("map", {"forEach": {"itemIn": "=[]", "inputKey": "item"}})],
+    }
+    for j, (shape, steps) in enumerate(sorted(shapes.items())):
+        uid = 990000 + j
+        fns = {f"vf-{uid}-{k}": v for k, v in (("none", vf_none), ("empty", vf_empty), ("map", vf_map), ("skip", vf_skip), ("dep", vf_dep))}
+        subs = {f"sub-{uid}": {"steps": [{"label": "inner", "ref": {"kind": "ValueFunction", "name": f"vf-{uid}-none"}}]}}
+        wsteps = []
+        for i, (k, extra) in enumerate(steps):
+            ref = {"kind": "Workflow", "name": f"sub-{uid}"} if k == "SUB" else {"kind": "ValueFunction", "name": f"vf-{uid}-{k}"}
+            wsteps.append({"label": f"st{i}", "ref": ref, **extra})
+        yield {"fns": fns, "subs": subs, "wf": {"steps": wsteps}, "owners": {}, "prims": {}, "uid": uid, "shape": "falsy:" + shape,
+               "initial_items": []}
+
+
 def workflow_stage(ctx: Ctx):
     """The 'consequently' clause at the place the aggregation is USED: a real Workflow reports Ok only if
     none of its steps is waiting or failed, and its overall class is the most severe class among its
@@ -278,6 +308,8 @@ def workflow_stage(ctx: Ctx):
     for j in range(nwf):
         case = C09.gen_workflow(ctx.rng, script=["vf", "rf:patch", "vf", "vfdep", "rf:recreate"] if j == 0 else None)
         case["initial_items"] = [[list(k), v] for k, v in C09.seed_objects(case).items()]
+        todo.append((case, None))
+    for case in falsy_workflows():
         todo.append((case, None))
     for case, fixed_plans in todo:
         wf = C09.build(case)
@@ -312,6 +344,11 @@ def workflow_stage(ctx: Ctx):
             if classes and SEV_NAME[overall] != max(SEV_NAME[c] for c in classes):
                 ctx.fail(Failure(signature="workflow: overall outcome is not the most severe class among its steps",
                                  what=f"overall {overall}, steps {classes}", case=tag, observed={"steps": steps}))
+            # every Ok step contributes its value, whatever that value is
+            raw = obs["res"].result
+            if overall == "Ok" and isinstance(raw, list) and len(raw) != sum(1 for c in classes if c == "Ok"):
+                ctx.fail(Failure(signature="workflow: the Ok values are not one per Ok step",
+                                 what=f"{len(raw)} values for step classes {classes}", case=tag, observed={"steps": steps}))
             # ground truth for 'waiting or failed': a step whose own API call was made to fail did not succeed
             if fired and any(k in ("exc", "http500", "srv500") for _i, k in fired) and overall in ("Ok", "Skip", "DepSkip"):
                 ctx.fail(Failure(signature="workflow: reports Ok/Skip although a step is waiting or failed",
